@@ -351,6 +351,16 @@ func checkMain(args []string) int {
 					crashed[name] = "fatal error: stack overflow (" + firstLine(tail(log1, 400)) + ")"
 					continue
 				}
+				if i := strings.Index(log1, "\npanic: "); i >= 0 {
+					// the scenario run ALONE in a fresh process takes the whole process down (an
+					// unrecovered panic in a goroutine of the concurrent phase, for instance)
+					crashed[name] = "the process died: " + firstLine(log1[i+1:])
+					continue
+				}
+				if i := strings.Index(log1, "\nfatal error: "); i >= 0 {
+					crashed[name] = "the process died: " + firstLine(log1[i+1:])
+					continue
+				}
 				still++
 				inconclusive = append(inconclusive, fmt.Sprintf("native replay of %s produced no output: %s", name, tail(log1, 1500)))
 			}
@@ -723,6 +733,10 @@ func replayMain(args []string) int {
 	if out == nil {
 		if in.Expect != nil && (in.Expect.Kind == "crash" || in.Expect.Kind == "recursion") && (strings.Contains(log, "stack overflow") || strings.Contains(log, "goroutine stack exceeds")) {
 			fmt.Printf("native run: the process died with a fatal stack overflow\nVIOLATION property=%s replay=%s\n", in.Property, args[0])
+			return 1
+		}
+		if in.Expect != nil && in.Expect.Kind == "crash" && (strings.Contains(log, "\npanic: ") || strings.Contains(log, "\nfatal error: ")) {
+			fmt.Printf("native run: the process died (panic / fatal error)\nVIOLATION property=%s replay=%s\n", in.Property, args[0])
 			return 1
 		}
 		fmt.Printf("could not run the replay: %v\n%s\n", err, tail(log, 2000))
